@@ -41,7 +41,7 @@ def _execute(sim, st, src):
     """run one simulated execution under a watchdog: a run that normally takes milliseconds and does not finish within
     sim.RUN_TIMEOUT seconds is reported as <PROP>.hang (step caps do not bound hangs inside the system under test)"""
     limit = getattr(sim, "RUN_TIMEOUT", 60)
-    use_alarm = threading.current_thread() is threading.main_thread()
+    use_alarm = threading.current_thread() is threading.main_thread() and signal.getitimer(signal.ITIMER_REAL)[0] == 0   # (not nested)
     if use_alarm:
         old = signal.signal(signal.SIGALRM, _alarm)
         signal.setitimer(signal.ITIMER_REAL, limit)
